@@ -434,7 +434,7 @@ def gen_infeasible(rng) -> dict:
         hdr += f"  timingresolution {_pick(rng, ['15min', '30min', '60min'])}\n"
     hdr += "}\n"
     res = 'resource r0 "R0" {}\nresource r1 "R1" { workinghours sat 09:00 - 09:00 }\nresource r2 "R2" { limits { dailymax 1h } }\n'
-    kind = rng.randrange(26)
+    kind = rng.randrange(27)
     far = (start + timedelta(days=rng.randrange(30, 4000))).isoformat()
     before = (start - timedelta(days=rng.randrange(1, 400))).isoformat()
     t = ""
@@ -501,6 +501,11 @@ def gen_infeasible(rng) -> dict:
     elif kind == 25:  # header without '+duration' (optional in the grammar): the project has no end
         hdr = hdr.split("\n", 1)[0].split(" +")[0] + " {\n" + hdr.split("\n", 1)[1]
         t = _pick(rng, ['task a "A" { effort 4h allocate r0 }\n', 'task m "M" { milestone }\n', 'task a "A" { effort 4h allocate r2 }\n'])
+    elif kind == 26:  # only zero-effort tasks fail: milestones / plain tasks whose dependency bound lies beyond the end
+        gap = _pick(rng, ["gapduration 1y", "gapduration 14m", f"gaplength {rng.randrange(30, 90)}d", "gapduration 400d"])
+        t = f'task a "A" {{ start {s} milestone }}\ntask b "B" {{ {_pick(rng, ["milestone", ""])} depends a {{ {gap} }} }}\n'
+        if rng.random() < 0.5:
+            t += 'task c "C" { effort 2h allocate r0 depends b }\n'
     elif kind == 23:  # macro that calls itself twice
         hdr = "macro d [ ${d} ${d} ]\n" + hdr
         t = 'task a "A" { effort 4h allocate r0 ${d} }\n'
